@@ -375,6 +375,10 @@ func (s *State) Reg(v ssa.Value) *Term {
 
 func (s *State) top() *frame { return s.frames[len(s.frames)-1] }
 
+// Poke records val as the contents of addr in a state that is being prepared as the start of an analysis (the cell a
+// recursive function literal is assigned to holds that very closure).
+func (s *State) Poke(addr, val *Term) { s.store(addr, val) }
+
 // Mem returns the current symbolic contents of addr (nil if unknown).
 func (s *State) MemAt(addr *Term) *Term { return s.load(addr, "q") }
 
@@ -470,6 +474,17 @@ func (s *State) havoc(addr *Term, tag string) {
 func ReentrantState(fn *ssa.Function, bindings []*Term, mem *State) *State {
 	st := NewRootState(fn, nil, bindings, mem)
 	st.facts = map[string]bool{}
+	written := writtenFreeVars(fn)
+	for i := range fn.FreeVars {
+		if written[i] && i < len(bindings) && bindings[i] != nil && bindings[i].Op == "alloc" {
+			st.havoc(bindings[i], "reentry")
+		}
+	}
+	return st
+}
+
+// writtenFreeVars: the indices of fn's free variables that fn itself, or a function literal inside it, assigns.
+func writtenFreeVars(fn *ssa.Function) map[int]bool {
 	written := map[int]bool{}
 	var scan func(f *ssa.Function, fvIndex map[ssa.Value]int)
 	scan = func(f *ssa.Function, fvIndex map[ssa.Value]int) {
@@ -503,12 +518,7 @@ func ReentrantState(fn *ssa.Function, bindings []*Term, mem *State) *State {
 		idx[fv] = i
 	}
 	scan(fn, idx)
-	for i := range fn.FreeVars {
-		if written[i] && i < len(bindings) && bindings[i] != nil && bindings[i].Op == "alloc" {
-			st.havoc(bindings[i], "reentry")
-		}
-	}
-	return st
+	return written
 }
 
 func (s *State) load(addr *Term, ver string) *Term {
@@ -2125,6 +2135,14 @@ func (ex *explorer) callDeferred(st *State, d *deferRec, blk *ssa.BasicBlock, id
 	var bindings []*Term
 	if d.static != nil {
 		fn = resolveBody(d.static)
+		// a deferred sync/atomic operation (defer live.Add(-1)): no event, as in doCall
+		of := d.static
+		if of.Origin() != nil {
+			of = of.Origin()
+		}
+		if nm := of.String(); strings.HasPrefix(nm, "sync/atomic.") || strings.HasPrefix(nm, "(*sync/atomic.") {
+			return false
+		}
 	}
 	if d.callee != nil && (d.callee.Op == "closure" || d.callee.Op == "fn") {
 		fn = resolveBody(d.callee.Fn)
@@ -2192,6 +2210,20 @@ func (ex *explorer) doCall(st *State, in ssa.Instruction, c *ssa.CallCommon, val
 			ex.emit(st, Step{Kind: KCall, Instr: in, Callee: &Term{Op: "builtin", Aux: b.Name()}, A: args, R: r})
 			bind(r)
 		}
+		return false
+	}
+	// sync/atomic on a counter or gauge: no event of any protocol the rules speak about (no channel operation, no
+	// call of user code, no store the terms can see); the value read is unknown
+	if strings.HasPrefix(name, "sync/atomic.") || strings.HasPrefix(name, "(*sync/atomic.") {
+		// an optional hook kept in an unexported package-level atomic.Pointer / atomic.Value that nothing in the
+		// program ever stores to: Load answers nil
+		if strings.HasSuffix(name, ").Load") && len(c.Args) == 1 {
+			if g, isG := c.Args[0].(*ssa.Global); isG && atomicNeverStored(g) {
+				bind(&Term{Op: "const", Aux: "nil", Typ: in.(ssa.Value).Type()})
+				return false
+			}
+		}
+		bind(&Term{Op: "atomic", Aux: site + f.id})
 		return false
 	}
 	if ex.opt.PureCall != nil && name != "" && ex.opt.PureCall(name) {
@@ -2291,6 +2323,15 @@ func (ex *explorer) doCall(st *State, in ssa.Instruction, c *ssa.CallCommon, val
 	ex.emit(st, Step{Kind: KCall, Instr: in, Callee: calleeT, Static: fn, A: args, R: r, InstArgs: instArgs})
 	bind(r)
 	ex.havocArgs(st, args, site)
+	// a function literal that is called but not followed (it recurses, or carries loops) may have assigned the
+	// variables it captures
+	if calleeT != nil && calleeT.Op == "closure" && calleeT.Fn != nil {
+		for i := range writtenFreeVars(calleeT.Fn) {
+			if i < len(calleeT.Args) && calleeT.Args[i] != nil && calleeT.Args[i].Op == "alloc" {
+				st.havoc(calleeT.Args[i], "c:"+site)
+			}
+		}
+	}
 	return false
 }
 
@@ -2388,6 +2429,12 @@ func (ex *explorer) simple(st *State, in ssa.Instruction) {
 			f.env[in] = &Term{Op: "un", Aux: in.Op.String(), Args: []*Term{x}}
 		}
 	case *ssa.BinOp:
+		// an interface made from a value of a concrete type is never the nil interface, whatever the value is: a nil
+		// pointer inside an interface compares unequal to nil (conversions are otherwise transparent in terms)
+		if (in.Op == token.EQL || in.Op == token.NEQ) && (concreteInIface(in.X) && isNilConst(in.Y) || concreteInIface(in.Y) && isNilConst(in.X)) {
+			f.env[in] = boolT(in.Op == token.NEQ)
+			break
+		}
 		f.env[in] = mkBin(in.Op.String(), ex.eval(st, in.X), ex.eval(st, in.Y))
 	case *ssa.FieldAddr:
 		x := ex.eval(st, in.X)
@@ -2450,6 +2497,12 @@ func (ex *explorer) simple(st *State, in ssa.Instruction) {
 	case *ssa.MakeInterface:
 		x := ex.eval(st, in.X)
 		f.env[in] = x
+		if x.IsNil() && !types.IsInterface(in.X.Type()) {
+			if _, isTP := in.X.Type().(*types.TypeParam); !isTP {
+				// a nil pointer (map, func ...) converted to an interface: not the nil interface
+				f.env[in] = &Term{Op: "typednil", Aux: shortType(f.ty(in.X.Type())), Typ: in.Type()}
+			}
+		}
 		zeroStruct := false
 		if x.IsConst() && strings.HasPrefix(x.Aux, "zero:") {
 			// the zero value of a named struct type (a stateless strategy object): its term names the type
@@ -2600,4 +2653,28 @@ func callsItself(fn *ssa.Function) bool {
 		}
 	}
 	return false
+}
+
+
+// concreteInIface: v is the conversion of a value of a concrete (non-interface, non-type-parameter) type to an
+// interface.
+func concreteInIface(v ssa.Value) bool {
+	for {
+		if ci, ok := v.(*ssa.ChangeInterface); ok {
+			v = ci.X
+			continue
+		}
+		break
+	}
+	mi, ok := v.(*ssa.MakeInterface)
+	if !ok || types.IsInterface(mi.X.Type()) {
+		return false
+	}
+	_, isTP := mi.X.Type().(*types.TypeParam)
+	return !isTP
+}
+
+func isNilConst(v ssa.Value) bool {
+	k, ok := v.(*ssa.Const)
+	return ok && k.IsNil()
 }
